@@ -161,4 +161,21 @@ func init() {
 		Technique: "path-sensitive interval analysis on SSA (branch refinement, wrap-window tracking, widening at loop heads) over every integer conversion of the codecs; table checks for UBJSON marker selection and CBOR inline arguments",
 		DesignRef: "DESIGN.md section 2 R5; section 3 C01",
 	})
+	register(&PropSpec{
+		ID:    "C07",
+		Level: "other",
+		Decided: "brackets balance and terminators appear exactly once per container: every event moves the nesting stacks by its contract delta and count/terminator conditions are exact complements (R6); JSON escape tables are exactly the required sets, non-finite floats never reach the formatter, float text is the shortest round-tripping form of the right width, every value passes the element-separator logic before its first write (R19); numbers are written without value change, CBOR heads pack only 0..23 inline, UBJSON markers fit their values (R5); formatted bytes in the scratch array are not overwritten before they are written out (R21).",
+		NotDecided: "UTF-8 validity of the output (the replacement logic in OnString is value-level), that the explicit-radix-point form always re-parses as a float, agreement with an independent reference decoder on whole documents.",
+		Assumptions: []string{"RFC 8259 section 7 (characters that must be escaped) is the oracle for the escape tables"},
+		TrustedBase: baseTrusted,
+		Rules: []RuleRun{
+			{"R6", R6("json", "cborl", "ubjson")},
+			{"R19", R19},
+			{"R5", R5("json", "cborl", "ubjson")},
+			{"R21", R21},
+		},
+		LevelText: "Structural necessary conditions decided on every path of ~170 encoder methods, plus exact constant evaluation of the escape-table initialiser. Tests only check that the library's own parser reads the encoder's output for 95 samples; an encoder and parser wrong in the same way pass, shapes outside the samples are never produced.",
+		Technique: "stack-delta path analysis; constant folding of the table initialiser over SSA; dominance rules for the float guard and format arguments; first-write-after-separator path rule; interval analysis of number conversions; scratch live-range overlap",
+		DesignRef: "DESIGN.md section 2 R6, R19, R5, R21; section 3 C07",
+	})
 }
